@@ -14,7 +14,8 @@ func (g *G) tVarargFn() []*S {
 		// `...` in the middle is truncated, at the end expanded
 		body = []*S{Local1("t", Tbl(Pos(Vararg()), Pos(Str("mid")), Pos(Vararg()))), Emit(Idx(Var("t"), Int(1)), Idx(Var("t"), Int(2)), Idx(Var("t"), Int(3)), Idx(Var("t"), Int(4))), Return(CallN("select", Str("#"), Vararg()), Vararg())}
 	case 2:
-		body = []*S{Local([]string{"a", "b"}, Vararg()), Emit(Var("a"), Var("b")), Return(CallN("select", Int(int64(-1-g.pick(2))), Str("pad"), Str("pad2"), Vararg()))}
+		body = []*S{Local1("p", Tbl(NV("n", CallN("select", Str("#"), Vararg())), Pos(Vararg()))), Emit(Dot(Var("p"), "n"), Idx(Var("p"), Int(1)), Idx(Var("p"), Int(2)), Idx(Var("p"), Int(3))),
+			Local([]string{"a", "b"}, Vararg()), Emit(Var("a"), Var("b")), Return(CallN("select", Int(int64(-1-g.pick(2))), Str("pad"), Str("pad2"), Vararg()))}
 	default:
 		body = []*S{Local1("n", CallN("select", Str("#"), Vararg())), If(Bin("gt", Var("n"), Int(1)), []*S{Return(Call(Var(f), CallN("select", Int(2), Vararg())))}, nil), Return(Var("n"), Par(Vararg()))}
 	}
@@ -380,12 +381,50 @@ func (g *G) tMethod() []*S {
 func (g *G) tIndexChain() []*S {
 	g.feat("metamethod")
 	a, b, c := g.fresh("base"), g.fresh("mid"), g.fresh("leaf")
-	return []*S{Local1(a, Tbl(NV("x", g.genInt(0)), NV("shared", Str("base")))),
-		Local1(b, CallN("setmetatable", Tbl(NV("y", g.genInt(0)), NV("shared", Str("mid"))), Tbl(NV("__index", Var(a))))),
-		Local1(c, CallN("setmetatable", Tbl(), Tbl(NV("__index", Var(b)), NV("__newindex", Var(a))))),
-		Emit(Dot(Var(c), "x"), Dot(Var(c), "y"), Dot(Var(c), "shared"), Dot(Var(c), "none")),
-		Assign1(Dot(Var(c), "z"), Int(5)),
-		Emit(CallN("rawget", Var(c), Str("z")), Dot(Var(a), "z"), Dot(Var(c), "z"))}
+	if g.chance(35) {
+		return []*S{Local1(a, Tbl(NV("x", g.genInt(0)), NV("shared", Str("base")))),
+			Local1(b, CallN("setmetatable", Tbl(NV("y", g.genInt(0)), NV("shared", Str("mid"))), Tbl(NV("__index", Var(a))))),
+			Local1(c, CallN("setmetatable", Tbl(), Tbl(NV("__index", Var(b)), NV("__newindex", Var(a))))),
+			Emit(Dot(Var(c), "x"), Dot(Var(c), "y"), Dot(Var(c), "shared"), Dot(Var(c), "none")),
+			Assign1(Dot(Var(c), "z"), Int(5)),
+			Emit(CallN("rawget", Var(c), Str("z")), Dot(Var(a), "z"), Dot(Var(c), "z"))}
+	}
+	// chains of tables that END IN A FUNCTION observing its first argument: the handler must receive the table
+	// reached at that stage of the chain (the one whose lookup failed), not the object originally indexed —
+	// for __index and for __newindex, with 1 to 3 table steps before the function
+	steps := 1 + g.pick(3)
+	names := []string{}
+	for i := 0; i <= steps; i++ {
+		names = append(names, g.fresh("lv"))
+	}
+	// names[steps] is the last table; its metatable holds the functions
+	last := names[steps]
+	out := []*S{Local1(last, CallN("setmetatable", Tbl(NV("kind", Str("L"+last)), NV("own"+last, g.genInt(0))), Tbl(
+		NV("__index", Fn([]string{"t", "k"}, false,
+			Emit(Str("__index fn"), CallN("rawget", Var("t"), Str("kind")), Var("k"), Bin("eq", Var("t"), Var(last))),
+			Return(Bin("concat", Bin("concat", CallN("rawget", Var("t"), Str("kind")), Str(":")), CallN("tostring", Var("k")))))),
+		NV("__newindex", Fn([]string{"t", "k", "v"}, false,
+			Emit(Str("__newindex fn"), CallN("rawget", Var("t"), Str("kind")), Var("k"), Var("v"), Bin("eq", Var("t"), Var(last))),
+			CallS(CallN("rawset", Var("t"), Var("k"), Var("v"))))))))}
+	for i := steps - 1; i >= 0; i-- {
+		out = append(out, Local1(names[i], CallN("setmetatable", Tbl(NV("kind", Str("L"+names[i]))), Tbl(NV("__index", Var(names[i+1])), NV("__newindex", Var(names[i+1]))))))
+	}
+	obj := names[0]
+	key := g.pickS([]string{"missing", "zzz", "name"})
+	out = append(out,
+		Emit(Dot(Var(obj), "kind"), Dot(Var(obj), "own"+last)),
+		Emit(Dot(Var(obj), key), Idx(Var(obj), g.genInt(0))),
+		Emit(Dot(Var(names[steps/2]), key)),
+		Assign1(Dot(Var(obj), "fresh"), g.genInt(0)),
+		Emit(CallN("rawget", Var(obj), Str("fresh")), CallN("rawget", Var(last), Str("fresh")), Dot(Var(obj), "fresh")),
+		Assign1(Dot(Var(obj), "kind"), Str("changed")),
+		Emit(CallN("rawget", Var(obj), Str("kind")), CallN("rawget", Var(last), Str("kind"))),
+		// a handler directly on the object's own metatable receives the object itself
+		Local1(c, CallN("setmetatable", Tbl(), Tbl(NV("__index", Fn([]string{"t", "k"}, false, Return(Bin("eq", Var("t"), Var(c)))))))),
+		Emit(Dot(Var(c), "anything")))
+	_ = a
+	_ = b
+	return out
 }
 
 func (g *G) tTbc() []*S {
@@ -394,7 +433,7 @@ func (g *G) tTbc() []*S {
 	mk := func(tag string) *E { return CallN("setmetatable", Tbl(NV("tag", Str(tag))), Var(mt)) }
 	def := Local1(mt, Tbl(NV("__close", Fn([]string{"o", "e"}, false, Emit(Str("close"), Dot(Var("o"), "tag"), Bin("eq", Var("e"), Nil()), Var("e"))))))
 	a, b := g.fresh("ca"), g.fresh("cb")
-	switch g.pick(4) {
+	switch g.pick(6) {
 	case 0:
 		// normal exit: reverse order
 		return []*S{def, Do(LocalAttr(a, "close", mk("a")), LocalAttr(b, "close", mk("b")), LocalAttr("cn", "close", Nil()), Emit(Str("body"))), Emit(Str("after"))}
@@ -406,11 +445,52 @@ func (g *G) tTbc() []*S {
 		// return: values are computed before closing
 		f := g.fresh("f")
 		return []*S{def, LocalFn(f, nil, false, LocalAttr(a, "close", mk("ret")), Return(Dot(Var(a), "tag"), Int(1))), Emit(Call(Var(f)))}
-	default:
+	case 3:
 		// error: the handler receives the error value; the error continues to pcall
 		g.feat("error")
 		return []*S{def, Emit(CallN("pcall", Fn(nil, false, LocalAttr(a, "close", mk("err")), CallS(CallN("error", Str("E1"), Int(0))))))}
+	default:
+		return g.closeRaisesDuringReturn()
 	}
+}
+
+// the __close handler raises while the function executes `return v1, v2, …` under pcall / xpcall: the protected
+// call returns exactly (false, error value) — the values already computed for the return are gone; the NUMBER of
+// results is observed
+func (g *G) closeRaisesDuringReturn() []*S {
+	g.feat("error")
+	g.feat("metamethod")
+	g.sites["site:close-raises-during-return"]++
+	ev, f := g.fresh("ev"), g.fresh("f")
+	var rets []*E
+	for i := 0; i < 1+g.pick(4); i++ {
+		rets = append(rets, g.genKind(g.pickK([]Kind{KInt, KStr, KBool}), 0))
+	}
+	errv := Var(ev)
+	if g.chance(30) {
+		errv = Str("close failed")
+	}
+	closer := CallN("setmetatable", Tbl(), Tbl(NV("__close", Fn([]string{"o", "e"}, false, Emit(Str("closing"), Bin("eq", Var("e"), Nil())), CallS(CallN("error", errv, Int(0)))))))
+	body := []*S{LocalAttr("c1", "close", closer)}
+	if g.chance(40) {
+		body = append(body, LocalAttr("c0", "close", CallN("setmetatable", Tbl(), Tbl(NV("__close", Fn([]string{"o", "e"}, false, Emit(Str("outer close"), Bin("eq", Var("e"), Var(ev)), CallN("type", Var("e")))))))))
+		body[0], body[1] = body[1], body[0]
+	}
+	body = append(body, Return(rets...))
+	out := []*S{Local1(ev, Tbl()), LocalFn(f, nil, false, body...)}
+	prot := func() *E {
+		if g.chance(35) {
+			return CallN("xpcall", Var(f), Fn([]string{"m"}, false, Return(Var("m"))))
+		}
+		return CallN("pcall", Var(f))
+	}
+	out = append(out,
+		Emit(CallN("select", Str("#"), prot())),
+		Emit(prot()),
+		Local([]string{"ok", "e", "x1", "x2"}, prot()),
+		Emit(Var("ok"), Bin("eq", Var("e"), Var(ev)), Var("x1"), Var("x2")),
+		Local1("t", Tbl(Pos(prot()))), Emit(Un("len", Var("t"))))
+	return out
 }
 
 func (g *G) tTruncExpand() []*S {
@@ -429,7 +509,12 @@ func (g *G) tTruncExpand() []*S {
 		Local1(t+"b", Tbl(Pos(call()), Pos(Par(call())))), Emit(Un("len", Var(t+"b"))),
 		Local([]string{"a", "b", "c"}, call()), Emit(Var("a"), Var("b"), Var("c")),
 		Local([]string{"d", "e"}, Par(call()), call()), Emit(Var("d"), Var("e")),
-		Emit(CallN("select", Str("#"), call()), CallN("select", Str("#"), call(), call()), CallN("select", Str("#"), Par(call())))}
+		Emit(CallN("select", Str("#"), call()), CallN("select", Str("#"), call(), call()), CallN("select", Str("#"), Par(call()))),
+		// keyed fields do not take part in the counting of positional fields: a trailing call after keyed fields
+		Local1(t+"k", Tbl(NV("x", Int(1)), Pos(call()))),
+		Emit(Dot(Var(t+"k"), "x"), Idx(Var(t+"k"), Int(1)), Idx(Var(t+"k"), Int(2)), Idx(Var(t+"k"), Int(3)), Idx(Var(t+"k"), Int(4))),
+		Local1(t+"m", Tbl(Pos(Str("h")), KV(Int(10), True()), NV("k", Str("v")), Pos(Str("i")), KV(Bin("concat", Str("a"), Str("b")), Int(0)), Pos(call()))),
+		Emit(Idx(Var(t+"m"), Int(1)), Idx(Var(t+"m"), Int(2)), Idx(Var(t+"m"), Int(3)), Idx(Var(t+"m"), Int(4)), Idx(Var(t+"m"), Int(5)), Idx(Var(t+"m"), Int(6)), Idx(Var(t+"m"), Int(7)))}
 }
 
 func (g *G) tRecursion() []*S {
